@@ -254,7 +254,7 @@ def _finish_reader(entity_type, nullable, field_readers, tagged_field_readers): 
         raise ValueError("Found tagged fields on a non-flexible model")
 
     def read_entity(buffer: IO[bytes]) -> E:''')]},
-    {"id": "c19-swallow-oserror-in-array-writer", "props": ["C19", "C07"], "edits": [(W, '''            write_compact_array_length(buffer, len(items))
+    {"id": "c07-swallow-oserror-in-array-writer", "props": ["C07"], "edits": [(W, '''            write_compact_array_length(buffer, len(items))
             for item in items:
                 item_writer(buffer, item)''', '''            write_compact_array_length(buffer, len(items))
             for item in items:
